@@ -24,21 +24,26 @@ class C20(Cfg):
         return ("dv-lockconn", "dmodel_lockconn") if conn else ("dv-lock", "dmodel_lock")
     design_ref = "DESIGN.md §6 C20, App. A.9"
     technique = "Lean 4 invariant/trace proofs over a literal model of the lock actor + exhaustive correspondence run against the real actor"
-    level_text = ("Theorems (Lean 4, no bound on peers, rooms, limit or sequence length) about a literal model of the RoomLockService actor: "
+    level_text = ("Theorems (Lean 4, no bound on peers, rooms, limit, connections or sequence length). (1) About a literal model of the RoomLockService actor: "
                   "locked rooms distinct, locked+available=max (no underflow), queue/map agreement, between two grants of a room there is an unlock of it, "
-                  "no missed wake-up (spare capacity => every pending room is locked), same-step progress on unlock, grants only to live receivers, pending-room accounting. "
-                  "The model is tied to the code by running the real actor and the compiled model on the same op sequences: all sequences over 2-3 peers, 2-3 rooms, limits 1-2 up to a bounded length (exhaustive) plus random long runs, outputs diffed, and an independent spec-level oracle on the implementation's observations. "
-                  "System-level exclusivity across connections is shown NOT to hold in the connection model (double unlock, grant in flight at close: decide-checked witnesses); starvation-freedom is not proved.")
-    level_note = ("Trusted: Lean kernel (+propext, Classical.choice, Quot.sound), the hand-written model and its correspondence harness, tokio channel semantics. "
-                  "Modelled and exercised: room_locking_service.rs. Modelled only (not exercised): the connection side in peer_inbound_service.rs. Not covered: real multi-thread timing.")
+                  "no missed wake-up (spare capacity => every pending room is locked), same-step progress on unlock, grants only to live receivers, pending-room accounting, head-of-line service. "
+                  "(2) About the composed system (service + any number of connection loops with inbox, per-room tasks in three phases, close at any moment; every interleaving): for the code as fixed in /repo, "
+                  "no room is ever synchronised by two connections or twice by one, every locked room has exactly one party responsible for releasing it (no lock is lost, also across close), at most max rooms are locked; "
+                  "for the code before the fix the double-unlock and grant-in-flight witnesses are decide-checked. "
+                  "(3) 'Every request is eventually granted' is FALSE: C20_breaks_starvation proves, for every number of rounds, a schedule in which every granted room is released and a live waiting peer never gets its room (known finding, replayed on the real actor). "
+                  "Both models are tied to the code on every run: the real actor and real LocalPeerService connection loops are driven on the same op sequences as the compiled models (all sequences over 2-3 peers, 2-3 rooms, limits 1-2 up to a bounded length, plus random long runs and random connection histories), outputs diffed, with an independent spec-level oracle on the implementation's observations.")
+    level_note = ("Trusted: Lean kernel (+propext, Classical.choice, Quot.sound), the hand-written models and their correspondence harnesses (single-threaded runtime driven to quiescence after every op), tokio channel semantics. "
+                  "Modelled and exercised: room_locking_service.rs; the lock-related part of LocalPeerService::start / process_acquired_room / cleanup in peer_inbound_service.rs (under the eager schedule only; the theorems cover all schedules of the model). "
+                  "Not covered: real multi-thread timing, the select! race between a grant and the end of the loop (modelled, not reproducible deterministically).")
     trusted_base = [
         "hand-written model lean/DiscretModel/Model/Lock.lean of room_locking_service.rs, tied by the correspondence run (dv-lock vs dmodel_lock)",
         "harness/lock (drives the real RoomLockService actor on a current-thread tokio runtime; quiescence by yielding)",
-        "connection side (LockConn.lean) is modelled from peer_inbound_service.rs and NOT exercised against the code",
+        "hand-written model lean/DiscretModel/Model/LockConn.lean of the connection side, tied by engine lockconn (real LocalPeerService::start loops, harness as remote peer)",
     ]
     assumptions = [
         "tokio mpsc channels are FIFO and lossless; UnboundedSender::send fails iff the receiver was dropped",
-        "starvation-freedom (every request eventually granted) is not proved; no-missed-wake-up and same-step progress are",
+        "starvation-freedom is false of the code (known finding); no-missed-wake-up, same-step progress and head-of-line service are proved",
+        "system-level theorems assume no party outside the modelled connections sends Unlock to the service",
     ]
 
     def gen_conn(self, seed, n, path):
